@@ -262,6 +262,29 @@ def r1(ctx, prog, fit, jac):
             h = prog.functions[prog.resolve_name(fit, norm(s.value.func))]
             rets = [r for r in walk_no_nested(h.node)
                     if isinstance(r, ast.Return)]
+            # tuple(pars[prefix + name].value for name in ('amp', 'xo', ..))
+            if len(rets) == 1:
+                rv = rets[0].value
+                if isinstance(rv, ast.Call) and norm(rv.func) in (
+                        "tuple", "list") and len(rv.args) == 1:
+                    rv = rv.args[0]
+                if isinstance(rv, (ast.GeneratorExp, ast.ListComp)) and \
+                        len(rv.generators) == 1 and \
+                        not rv.generators[0].ifs and \
+                        isinstance(rv.generators[0].iter, (ast.Tuple,
+                                                           ast.List)) and \
+                        isinstance(rv.elt, ast.Attribute) and \
+                        rv.elt.attr == "value" and \
+                        isinstance(rv.elt.value, ast.Subscript) and \
+                        norm(rv.generators[0].target) in names_in(
+                            rv.elt.value.slice):
+                    sf = [e.value for e in rv.generators[0].iter.elts
+                          if isinstance(e, ast.Constant)]
+                    if len(sf) == len(s.targets[0].elts) and \
+                            all(x in S for x in sf):
+                        for t_, x in zip(s.targets[0].elts, sf):
+                            tr.env[norm(t_)] = S[x]
+                        continue
             if len(rets) == 1 and isinstance(rets[0].value, ast.Tuple) and \
                     len(rets[0].value.elts) == len(s.targets[0].elts):
                 def sfx_of(e):
@@ -445,9 +468,15 @@ def r4_r5(ctx, prog, fit, wrapper):
     if not use_loops:
         raise AnalysisError("C04-R4: stderr store is not inside a loop")
     comp_loop = use_loops[-1]         # outermost
+    from ..core import as_update
+
+    def is_inc(s_):
+        u = as_update(s_) if isinstance(s_, (ast.Assign, ast.AugAssign)) \
+            else None
+        return u is not None and u[0] == idx.id
     inits = [s for s in walk_no_nested(fi.node) if isinstance(s, ast.Assign)
              and any(isinstance(t, ast.Name) and t.id == idx.id
-                     for t in s.targets)]
+                     for t in s.targets) and not is_inc(s)]
     enum_loops = [l for l in use_loops if isinstance(l, ast.For) and
                   idx.id in names_in(l.target)]
     if enum_loops:
@@ -470,13 +499,9 @@ def r4_r5(ctx, prog, fit, wrapper):
         # paired increment
         blk = pm[store]
         body = getattr(blk, "body", [])
-        incs = [s for s in body if isinstance(s, ast.AugAssign) and
-                isinstance(s.target, ast.Name) and s.target.id == idx.id and
-                isinstance(s.op, ast.Add) and
-                isinstance(s.value, ast.Constant) and s.value.value == 1]
-        all_incs = [s for s in walk_no_nested(fi.node)
-                    if isinstance(s, ast.AugAssign) and
-                    isinstance(s.target, ast.Name) and s.target.id == idx.id]
+        incs = [s for s in body if isinstance(s, (ast.Assign, ast.AugAssign))
+                and as_update(s) == (idx.id, ast.Add, "1")]
+        all_incs = [s for s in walk_no_nested(fi.node) if is_inc(s)]
         ctx.check("C04-R4", fi, "increment paired with " + norm(store),
                   len(incs) == 1 and len(all_incs) == 1 and store in body,
                   "the index must advance by one exactly where a stderr is "
@@ -554,15 +579,45 @@ def r4_r5(ctx, prog, fit, wrapper):
             continue
         J = norm(jdef[0].targets[0])
         mt = norm(mdef[0].value).replace(" ", "")
-        forms_plain = ["np.transpose(%s).dot(%s)" % (J, J), "%s.T.dot(%s)" %
-                       (J, J), "%s.T@%s" % (J, J)]
-        uses_C = "inv(C)" in mt
-        forms_c = ["np.transpose(%s).dot(inv(C)).dot(%s)" % (J, J),
-                   "%s.T.dot(inv(C)).dot(%s)" % (J, J)]
+
+        def factors(e, depth=0):
+            """matrix product as a list of factor descriptions"""
+            if depth > 6:
+                return [norm(e)]
+            if isinstance(e, ast.Call) and isinstance(e.func, ast.Attribute) \
+                    and e.func.attr == "dot" and len(e.args) == 1:
+                return factors(e.func.value, depth + 1) + \
+                    factors(e.args[0], depth + 1)
+            if isinstance(e, ast.BinOp) and isinstance(e.op, ast.MatMult):
+                return factors(e.left, depth + 1) + \
+                    factors(e.right, depth + 1)
+            if isinstance(e, ast.Call) and norm(e.func) in (
+                    "np.dot", "numpy.dot") and len(e.args) == 2:
+                return factors(e.args[0], depth + 1) + \
+                    factors(e.args[1], depth + 1)
+            if isinstance(e, ast.Call) and norm(e.func) in (
+                    "np.transpose", "numpy.transpose") and len(e.args) == 1:
+                return ["T(%s)" % norm(e.args[0])]
+            if isinstance(e, ast.Attribute) and e.attr == "T":
+                return ["T(%s)" % norm(e.value)]
+            if isinstance(e, ast.Call) and isinstance(e.func, ast.Attribute) \
+                    and e.func.attr == "transpose" and not e.args:
+                return ["T(%s)" % norm(e.func.value)]
+            if isinstance(e, ast.Call) and norm(e.func).split(".")[-1] in (
+                    "inv", "pinv") and len(e.args) == 1:
+                return ["inv(%s)" % norm(e.args[0])]
+            if isinstance(e, ast.Name) and e.id not in (J, "C", "B"):
+                dd = [s_ for s_ in body if isinstance(s_, ast.Assign) and
+                      norm(s_.targets[0]) == e.id]
+                if len(dd) == 1:
+                    return factors(dd[0].value, depth + 1)
+            return [norm(e)]
+        fac = factors(mdef[0].value)
+        uses_C = "inv(C)" in fac
         ctx.check("C04-R5", fi, "Fisher matrix " + norm(mdef[0]),
-                  mt in forms_plain or mt in forms_c,
-                  "expected J^T J or J^T inv(C) J with J=%s; found %s" %
-                  (J, mt), node=mdef[0])
+                  fac in (["T(%s)" % J, J], ["T(%s)" % J, "inv(C)", J]),
+                  "expected J^T J or J^T inv(C) J with J=%s; found the "
+                  "product %s" % (J, fac), node=mdef[0])
         jc = jdef[0].value
         e = kwarg(jc, "errs")
         b = kwarg(jc, "B")
